@@ -840,7 +840,8 @@ def garbage_rule(m, rid, tier):
         ok = res[0] == "tree" or res[1] in ("FortranSyntaxError", "SystemExit")
         r.ob(ok, "%s mutated: %s" % (name, res[0] if res[0] == "tree" else res[1]) if made % 10 == 0 else None)
         if not ok:
-            what = re.sub(r"'[^']*'", "'?'", (res[2] or "").split("\n")[0])[:70]
+            # (the words of the message, not the offending text it quotes: one id per raise site)
+            what = " ".join(re.findall(r"[A-Za-z_]{4,}", (res[2] or "").split("\n")[0])[:8])
             run.fail("escapes|%s|%s" % (res[1], what), "parsing a mutated copy of sample %r (%s) ends in %s (%s): neither a tree nor "
                      "FortranSyntaxError.  Source: %s" % (name, std, res[1], (res[2] or "")[:90], show(src, 40)))
     r.floor = 12
